@@ -12,12 +12,18 @@
 // deterministic rand; sign over seed classes x every length 0..LS; auth over key classes x
 // every length; each Seal/Sign/Sum compared byte for byte, each Open/Verify fed model-produced
 // values (accept) and every single-byte corruption / truncation class (reject).
+//
+// Hardening pass: five out-argument modes (nil, prefix, prefix+spare, prefix+exact capacity, prefix
+// with capacity one short; spare capacity pre-loaded with old bytes); all arguments are private
+// copies, checked unchanged and wiped before results are compared; results handed out earlier
+// (GenerateKey, auth.Sum) must survive later calls; long messages around 2^16..2^22 (2^24).
 package main
 
 import (
 	"bytes"
 	"fmt"
 	"io"
+	"sync"
 
 	"golang.org/x/crypto/nacl/auth"
 	"golang.org/x/crypto/nacl/box"
@@ -35,17 +41,40 @@ func a24(b []byte) (a [24]byte) { copy(a[:], b); return }
 
 // appendModes: how the `out` argument of the append-style APIs is supplied.
 //
-//	0: nil   1: 5-byte prefix without spare capacity   2: 5-byte prefix with enough capacity
+//	0: nil   1: 5-byte prefix without spare capacity   2: 5-byte prefix with more than enough capacity
+//	3: 5-byte prefix with EXACTLY the needed capacity   4: 5-byte prefix whose capacity is one byte short
+//
+// The spare capacity always holds old non-zero contents (a reused destination buffer).
+const nModes = 5
+
 func mkOut(mode, need int) []byte {
+	var b []byte
 	switch mode {
+	case 0:
+		return nil
 	case 1:
 		return []byte("PREFX")
 	case 2:
-		b := make([]byte, 5, 5+need+8)
-		copy(b, "PREFX")
-		return b
+		b = make([]byte, 5+need+8)
+	case 3:
+		b = make([]byte, 5+need)
+	case 4:
+		if need == 0 {
+			return []byte("PREFX")
+		}
+		b = make([]byte, 5+need-1)
 	}
-	return nil
+	for i := range b {
+		b[i] = 0xA5 ^ byte(i)
+	}
+	copy(b, "PREFX")
+	return b[:5]
+}
+
+func wipe(b []byte) {
+	for i := range b {
+		b[i] ^= 0xFF
+	}
 }
 
 func checkAppended(got []byte, mode int, want []byte) bool {
@@ -85,7 +114,9 @@ func corruptions(b []byte, dense bool) [][]byte {
 }
 
 func run(c *vf.Ctx) {
-	c.Rule("full grid: secretbox {key classes} x {nonce classes} x every message length 0..L plus 1000,2000,4096,16384 x out-argument mode {nil, prefix, prefix+capacity}; " +
+	c.Rule("full grid: secretbox {key classes} x {nonce classes} x every message length 0..L plus 1000,2000,4096,16384 x out-argument mode {nil, prefix, prefix+spare capacity, prefix+EXACT capacity, prefix+capacity one short} (spare capacity holds old bytes); " +
+		"every argument (key, nonce, key pair, message, box) is a private copy that must be unchanged after the call and is wiped before the result is compared; " +
+		"long messages 2^k+{-1,0,1,31,32,33,95,96,97} for k=16..22 (24 thorough) through secretbox Seal/Open, box Seal/Open, SealAnonymous/OpenAnonymous, 2^k+{-1,0,1} (k even) through sign and auth; " +
 		"box: all ordered pairs of key-pair classes x nonce classes x lengths, plus every small-order/non-canonical/bit-255 peer key; sealed boxes: recipient classes x lengths with a deterministic rand; " +
 		"sign: seed classes x every length 0..LS; auth: key classes x every length 0..LA. Open/Verify: model-produced value accepted, every single-byte corruption (dense for short inputs) and truncation/extension rejected. " +
 		"non-trivial = distinct (function, length) with length > 32 (past the first-block split) or distinct key-pair combination; " +
@@ -126,19 +157,31 @@ func run(c *vf.Ctx) {
 		msg := pickMsg(t.ki+t.ni, n)
 		want := naclref.SecretboxSeal(msg, nonce, key)
 		det := map[string]any{"len": n, "keyclass": t.ki, "nonceclass": t.ni}
-		for mode := 0; mode < 3; mode++ {
-			if n > 1000 && mode == 1 {
+		mc, bc := make([]byte, 0, n+3), make([]byte, 0, n+19)
+		for mode := 0; mode < nModes; mode++ {
+			if n > 1000 && (mode == 1 || mode == 4) {
 				continue
+			}
+			if mode >= 3 && t.ki != t.ni && n > 70 {
+				continue // capacity-boundary modes: every length on the diagonal, lengths 0..70 everywhere
 			}
 			var got []byte
 			k2, n2 := key, nonce
-			pan, val, _ := vf.Protect(func() { got = secretbox.Seal(mkOut(mode, len(want)), msg, &n2, &k2) })
+			mc = append(mc[:0], msg...) // private copy of the message: the caller owns it
+			pan, val, _ := vf.Protect(func() { got = secretbox.Seal(mkOut(mode, len(want)), mc, &n2, &k2) })
 			c.Eval(1)
 			if pan {
 				det["panic"] = fmt.Sprint(val)
 				c.Violation("secretbox.Seal panics", det)
 				return
 			}
+			if k2 != key || n2 != nonce || !bytes.Equal(mc, msg) {
+				det["outmode"] = mode
+				c.Violation("secretbox.Seal modifies its key, nonce or message argument", det)
+			}
+			wipe(mc) // the caller reuses its buffers: the returned box must not depend on them any more
+			wipe(k2[:])
+			wipe(n2[:])
 			if !checkAppended(got, mode, want) {
 				det["outmode"] = mode
 				det["first_diff_at"] = firstDiff(got, want, mode)
@@ -146,13 +189,22 @@ func run(c *vf.Ctx) {
 			}
 			var back []byte
 			var ok bool
-			pan, val, _ = vf.Protect(func() { back, ok = secretbox.Open(mkOut(mode, n), want, &n2, &k2) })
+			k2, n2 = key, nonce
+			bc = append(bc[:0], want...)
+			pan, val, _ = vf.Protect(func() { back, ok = secretbox.Open(mkOut(mode, n), bc, &n2, &k2) })
 			c.Eval(1)
 			if pan {
 				det["panic"] = fmt.Sprint(val)
 				c.Violation("secretbox.Open panics", det)
 				return
 			}
+			if k2 != key || n2 != nonce || !bytes.Equal(bc, want) {
+				det["outmode"] = mode
+				c.Violation("secretbox.Open modifies its key, nonce or box argument", det)
+			}
+			wipe(bc)
+			wipe(k2[:])
+			wipe(n2[:])
 			if !ok || !checkAppended(back, mode, msg) {
 				det["outmode"] = mode
 				det["ok"] = ok
@@ -208,16 +260,28 @@ func run(c *vf.Ctx) {
 		pairs = append(pairs, kp{fmt.Sprintf("class%d", i), sk, naclref.BoxKeyPair(sk)})
 	}
 	// GenerateKey: secret = 32 bytes from rand, public = X25519(secret, 9)
-	for i := 0; i < 4; i++ {
-		label := fmt.Sprintf("c10-genkey-%d-%d", c.Seed, i)
-		var sk [32]byte
-		io.ReadFull(vf.NewRand(label), sk[:])
-		var pk, gsk *[32]byte
-		var err error
-		pan, _, _ := vf.Protect(func() { pk, gsk, err = box.GenerateKey(vf.NewRand(label)) })
-		c.Eval(1)
-		if pan || err != nil || *gsk != sk || *pk != naclref.BoxKeyPair(sk) {
-			c.Violation("box.GenerateKey != (rand bytes, X25519(sk, 9))", map[string]any{"i": i, "err": fmt.Sprint(err)})
+	{
+		var gpks, gsks []*[32]byte
+		var wsks [][32]byte
+		for i := 0; i < 4; i++ {
+			label := fmt.Sprintf("c10-genkey-%d-%d", c.Seed, i)
+			var sk [32]byte
+			io.ReadFull(vf.NewRand(label), sk[:])
+			var pk, gsk *[32]byte
+			var err error
+			pan, _, _ := vf.Protect(func() { pk, gsk, err = box.GenerateKey(vf.NewRand(label)) })
+			c.Eval(1)
+			if pan || err != nil || *gsk != sk || *pk != naclref.BoxKeyPair(sk) {
+				c.Violation("box.GenerateKey != (rand bytes, X25519(sk, 9))", map[string]any{"i": i, "err": fmt.Sprint(err)})
+				continue
+			}
+			gpks, gsks, wsks = append(gpks, pk), append(gsks, gsk), append(wsks, sk)
+		}
+		// the key pairs handed out earlier belong to their callers: later calls must not change them
+		for i := range gpks {
+			if *gsks[i] != wsks[i] || *gpks[i] != naclref.BoxKeyPair(wsks[i]) {
+				c.Violation("box.GenerateKey: a later call changed a key pair returned earlier", map[string]any{"i": i})
+			}
 		}
 	}
 	if box.Overhead != 16 || box.AnonymousOverhead != 48 {
@@ -250,6 +314,9 @@ func run(c *vf.Ctx) {
 			}
 			if k1 != k2 {
 				c.Violation("box.Precompute is not symmetric between the two parties", det)
+			}
+			if pa != pairs[a].pk || pb != pairs[b].pk || sa != pairs[a].sk || sb != pairs[b].sk {
+				c.Violation("box.Precompute modifies a key argument", det)
 			}
 			if k1 != shared[[2]int{a, b}] {
 				c.Violation("box.Precompute != HSalsa20(X25519(sk, pk), 0)", det)
@@ -292,6 +359,9 @@ func run(c *vf.Ctx) {
 				det["want"] = fmt.Sprintf("%x", want)
 				c.Violation("box.Precompute != HSalsa20(X25519(sk, pk), 0) for a special peer key", det)
 			}
+			if pk != s.pk || sk != pairs[a].sk {
+				c.Violation("box.Precompute modifies a key argument", det)
+			}
 			if weak {
 				c.Outcome("small-order peer: key derived from all-zero secret")
 			} else {
@@ -330,14 +400,18 @@ func run(c *vf.Ctx) {
 		k := shared[[2]int{t.a, t.b}]
 		want := naclref.SecretboxSeal(msg, nonce, k) // == BoxSeal (checked in the model's KATs); avoids a ladder per point
 		det := map[string]any{"sender": A.name, "recipient": B.name, "nonceclass": t.ni, "len": n}
-		mode := (t.a + n) % 3
+		mode := (t.a + n) % nModes
+		det["outmode"] = mode
 		var got, got2, back, back2 []byte
 		var ok, ok2 bool
+		// every argument is a private copy that is wiped after the calls
+		mc, bc := append([]byte(nil), msg...), append([]byte(nil), want...)
+		nc, kc, apk, ask, bpk, bsk := nonce, k, A.pk, A.sk, B.pk, B.sk
 		pan, val, _ := vf.Protect(func() {
-			got = box.Seal(mkOut(mode, len(want)), msg, &nonce, &B.pk, &A.sk)
-			got2 = box.SealAfterPrecomputation(mkOut(mode, len(want)), msg, &nonce, &k)
-			back, ok = box.Open(mkOut(mode, n), want, &nonce, &A.pk, &B.sk)
-			back2, ok2 = box.OpenAfterPrecomputation(mkOut(mode, n), want, &nonce, &k)
+			got = box.Seal(mkOut(mode, len(want)), mc, &nc, &bpk, &ask)
+			got2 = box.SealAfterPrecomputation(mkOut(mode, len(want)), mc, &nc, &kc)
+			back, ok = box.Open(mkOut(mode, n), bc, &nc, &apk, &bsk)
+			back2, ok2 = box.OpenAfterPrecomputation(mkOut(mode, n), bc, &nc, &kc)
 		})
 		c.Eval(4)
 		if pan {
@@ -345,6 +419,17 @@ func run(c *vf.Ctx) {
 			c.Violation("box Seal/Open panics", det)
 			return
 		}
+		if !bytes.Equal(mc, msg) || !bytes.Equal(bc, want) || nc != nonce || kc != k || apk != A.pk || ask != A.sk || bpk != B.pk || bsk != B.sk {
+			c.Violation("box Seal/Open modifies a key, nonce, message or box argument", det)
+		}
+		wipe(mc)
+		wipe(bc)
+		wipe(nc[:])
+		wipe(kc[:])
+		wipe(apk[:])
+		wipe(ask[:])
+		wipe(bpk[:])
+		wipe(bsk[:])
 		if !checkAppended(got, mode, want) {
 			c.Violation("box.Seal != crypto_box_easy", det)
 		}
@@ -383,6 +468,215 @@ func run(c *vf.Ctx) {
 		}
 	})
 
+	// ---- 2d. long messages: lengths around every power of two up to 4 MiB (16 MiB thorough) ---
+	// secretbox hands message[32:] to the Salsa20 code and the ciphertext to Poly1305; nothing in the
+	// grid above is longer than 16 KiB. The model is computed ONCE per (key, nonce) for the longest
+	// message (naclref.SecretboxPrefixes: ciphertext prefix + Poly1305 of every prefix).
+	{
+		maxK := 22
+		if c.Thorough {
+			maxK = 24
+		}
+		var longs []int
+		for k := 16; k <= maxK; k++ {
+			// n = 2^k+{-1,0,1} and n-32 (what the Salsa20 code sees after the first-block split) = 2^k+{-1,0,1,63,64,65}
+			for _, d := range []int{-1, 0, 1, 31, 32, 33, 95, 96, 97} {
+				longs = append(longs, 1<<uint(k)+d)
+			}
+		}
+		longMax := longs[len(longs)-1]
+		longMsg := make([]byte, longMax)
+		for i := range longMsg {
+			longMsg[i] = byte(i*5 + i>>10)
+		}
+		type lk struct {
+			key   [32]byte
+			nonce [24]byte
+			a, b  int // key pair indices when the key is a box key, else -1; a == -2: sealed box for recipient b
+			esk   [32]byte
+			ct    []byte
+			tags  map[int][16]byte
+		}
+		lks := []*lk{
+			{key: a32(keys[len(keys)-1]), nonce: a24(nonces[len(nonces)-1]), a: -1, b: -1},
+			{key: shared[[2]int{4, 5}], nonce: a24(nonces[3]), a: 4, b: 5},
+		}
+		{
+			// sealed box: epk || crypto_box(m, BLAKE2b-192(epk || pk), pk, esk)
+			esk := a32(keys[len(keys)-2])
+			epk := naclref.BoxKeyPair(esk)
+			k, _ := naclref.BoxBeforeNM(pairs[5].pk, esk)
+			lks = append(lks, &lk{key: k, nonce: naclref.SealNonce(epk, pairs[5].pk), a: -2, b: 5, esk: esk})
+		}
+		c.ParallelFor(len(lks), func(i int) {
+			lks[i].ct, lks[i].tags = naclref.SecretboxPrefixes(longMsg, lks[i].nonce, lks[i].key, longs)
+		})
+		// tie the one-pass model to the plain one at the shortest long length
+		for _, l := range lks {
+			n := longs[0]
+			tg := l.tags[n]
+			if !bytes.Equal(append(tg[:], l.ct[:n]...), naclref.SecretboxSeal(longMsg[:n], l.nonce, l.key)) {
+				panic("C10: SecretboxPrefixes disagrees with SecretboxSeal")
+			}
+			if l.a == -2 {
+				epk := naclref.BoxKeyPair(l.esk)
+				if !bytes.Equal(append(append(epk[:], tg[:]...), l.ct[:n]...), naclref.SealedBoxSeal(longMsg[:n], pairs[l.b].pk, l.esk)) {
+					panic("C10: sealed-box composition disagrees with SealedBoxSeal")
+				}
+			}
+		}
+		// scratch buffers are recycled (old contents = a reused destination)
+		pool := sync.Pool{New: func() any {
+			b := make([]byte, longMax+64)
+			for i := range b {
+				b[i] = 0xA5 ^ byte(i)
+			}
+			return &b
+		}}
+		outBuf := func(b []byte, mode, need int) []byte {
+			copy(b, "PREFX")
+			switch mode {
+			case 2:
+				return b[: 5 : 5+need+8]
+			case 3:
+				return b[: 5 : 5+need]
+			}
+			return nil
+		}
+		c.ParallelFor(len(lks)*len(longs), func(i int) {
+			l, n := lks[i/len(longs)], longs[i%len(longs)]
+			tg := l.tags[n]
+			wb, ob := pool.Get().(*[]byte), pool.Get().(*[]byte)
+			defer pool.Put(wb)
+			defer pool.Put(ob)
+			want := append(append((*wb)[:0], tg[:]...), l.ct[:n]...)
+			msg := longMsg[:n]
+			det := map[string]any{"len": n, "long": true, "keyset": i / len(longs)}
+			if l.a == -1 {
+				mode := []int{0, 3, 2}[i%3]
+				det["outmode"] = mode
+				var got, back []byte
+				var ok bool
+				k2, n2 := l.key, l.nonce
+				pan, val, _ := vf.Protect(func() { got = secretbox.Seal(outBuf(*ob, mode, len(want)), msg, &n2, &k2) })
+				c.Eval(1)
+				if pan {
+					det["panic"] = fmt.Sprint(val)
+					c.Violation("secretbox.Seal panics on a long message", det)
+					return
+				}
+				if k2 != l.key || n2 != l.nonce {
+					c.Violation("secretbox.Seal modifies its key, nonce or message argument", det)
+				}
+				if !checkAppended(got, mode, want) {
+					det["first_diff_at"] = firstDiff(got, want, mode)
+					c.Violation("secretbox.Seal != crypto_secretbox_easy on a long message (>= 64 KiB)", det)
+				}
+				got = nil
+				pan, val, _ = vf.Protect(func() { back, ok = secretbox.Open(outBuf(*ob, mode, n), want, &n2, &k2) })
+				c.Eval(1)
+				if pan {
+					det["panic"] = fmt.Sprint(val)
+					c.Violation("secretbox.Open panics on a long box", det)
+					return
+				}
+				if !ok || !checkAppended(back, mode, msg) {
+					det["ok"] = ok
+					c.Violation("secretbox.Open rejects or mis-decrypts a long crypto_secretbox_easy box (>= 64 KiB)", det)
+				}
+			}
+			// one corrupted byte far behind the first block must be rejected
+			want[len(want)-1-n/3] ^= 0x40
+			var ok bool
+			pan, _, _ := vf.Protect(func() { _, ok = secretbox.Open(nil, want, &l.nonce, &l.key) })
+			c.Eval(1)
+			if pan || ok {
+				c.Violation("secretbox.Open accepts a corrupted long box (or panics)", det)
+			}
+			want[len(want)-1-n/3] ^= 0x40
+			if l.a >= 0 {
+				A, B := pairs[l.a], pairs[l.b]
+				var got, back []byte
+				nonce := l.nonce
+				pan, val, _ := vf.Protect(func() {
+					got = box.Seal(nil, msg, &nonce, &B.pk, &A.sk)
+					back, ok = box.Open(nil, want, &nonce, &A.pk, &B.sk)
+				})
+				c.Eval(2)
+				if pan || !bytes.Equal(got, want) || !ok || !bytes.Equal(back, msg) {
+					det["panic"] = fmt.Sprint(val)
+					c.Violation("box.Seal/Open != crypto_box_easy on a long message (>= 64 KiB)", det)
+				}
+			}
+			if l.a == -2 {
+				R := pairs[l.b]
+				epk := naclref.BoxKeyPair(l.esk)
+				wantS := append(append(make([]byte, 0, 32+len(want)), epk[:]...), want...)
+				mode := []int{3, 0, 2}[i%3]
+				det["outmode"] = mode
+				var got, back []byte
+				var err error
+				pan, val, _ := vf.Protect(func() {
+					got, err = box.SealAnonymous(outBuf(*ob, mode, len(wantS)), msg, &R.pk, bytes.NewReader(l.esk[:]))
+				})
+				c.Eval(1)
+				if pan || err != nil || !checkAppended(got, mode, wantS) {
+					det["panic"] = fmt.Sprint(val, err)
+					c.Violation("box.SealAnonymous != crypto_box_seal on a long message (>= 64 KiB)", det)
+				}
+				pan, val, _ = vf.Protect(func() { back, ok = box.OpenAnonymous(outBuf(*ob, mode, n), wantS, &R.pk, &R.sk) })
+				c.Eval(1)
+				if pan || !ok || !checkAppended(back, mode, msg) {
+					det["panic"] = fmt.Sprint(val)
+					c.Violation("box.OpenAnonymous rejects or mis-decrypts a long crypto_box_seal box (>= 64 KiB)", det)
+				}
+			}
+			c.Nontrivial(fmt.Sprintf("long/%d/%d", i/len(longs), n))
+		})
+		// signed messages and authenticators of long messages (one key each)
+		var few []int
+		for k := 16; k <= maxK; k += 2 {
+			few = append(few, 1<<uint(k)-1, 1<<uint(k), 1<<uint(k)+1)
+		}
+		c.ParallelFor(len(few), func(i int) {
+			n := few[i]
+			msg := longMsg[:n]
+			det := map[string]any{"len": n, "long": true}
+			var got, back []byte
+			var ok bool
+			seed := a32(keys[len(keys)-1])
+			pk, sk := naclref.SignKeyPair(seed)
+			wantG := naclref.Sign(seed, msg)
+			pan, val, _ := vf.Protect(func() {
+				got = sign.Sign(nil, msg, &sk)
+				back, ok = sign.Open(nil, wantG, &pk)
+			})
+			c.Eval(2)
+			if pan || !bytes.Equal(got, wantG) || !ok || !bytes.Equal(back, msg) {
+				det["panic"] = fmt.Sprint(val)
+				c.Violation("sign.Sign/Open != crypto_sign on a long message (>= 64 KiB)", det)
+			}
+			wantG[len(wantG)-1-n/2] ^= 1
+			pan, _, _ = vf.Protect(func() { _, ok = sign.Open(nil, wantG, &pk) })
+			c.Eval(1)
+			if pan || ok {
+				c.Violation("sign.Open accepts a corrupted long signed message (or panics)", det)
+			}
+			key := a32(keys[len(keys)-1])
+			wantA := naclref.Auth(msg, key)
+			var ga *[32]byte
+			pan, _, _ = vf.Protect(func() {
+				ga = auth.Sum(msg, &key)
+				ok = auth.Verify(wantA[:], msg, &key)
+			})
+			c.Eval(2)
+			if pan || *ga != wantA || !ok {
+				c.Violation("auth.Sum/Verify != crypto_auth on a long message (>= 64 KiB)", det)
+			}
+			c.Nontrivial(fmt.Sprintf("long-sign-auth/%d", n))
+		})
+	}
+
 	// ---- 3. sealed boxes ------------------------------------------------------------------
 	sealLens := lengths
 	c.ParallelFor(len(pairs)*len(sealLens), func(i int) {
@@ -399,24 +693,37 @@ func run(c *vf.Ctx) {
 		}
 		want := naclref.SealedBoxSeal(msg, R.pk, esk)
 		det := map[string]any{"recipient": R.name, "len": n, "esk": fmt.Sprintf("%x", esk)}
-		mode := n % 3
+		mode := n % nModes
+		det["outmode"] = mode
 		var got []byte
 		var err error
-		pan, val, _ := vf.Protect(func() { got, err = box.SealAnonymous(mkOut(mode, len(want)), msg, &R.pk, bytes.NewReader(esk[:])) })
+		mc, bc, rpk, rsk, ec := append([]byte(nil), msg...), append([]byte(nil), want...), R.pk, R.sk, esk
+		pan, val, _ := vf.Protect(func() { got, err = box.SealAnonymous(mkOut(mode, len(want)), mc, &rpk, bytes.NewReader(ec[:])) })
 		c.Eval(1)
 		if pan || err != nil {
 			det["panic"] = fmt.Sprint(val, err)
 			c.Violation("box.SealAnonymous panics or fails", det)
 			return
 		}
+		if !bytes.Equal(mc, msg) || rpk != R.pk {
+			c.Violation("box.SealAnonymous modifies its message or recipient argument", det)
+		}
+		wipe(mc)
+		wipe(ec[:]) // the bytes the reader handed out
 		if !checkAppended(got, mode, want) {
 			det["first_diff_at"] = firstDiff(got, want, mode)
 			c.Violation("box.SealAnonymous != crypto_box_seal (epk || box with BLAKE2b-192(epk||pk) nonce)", det)
 		}
 		var back []byte
 		var ok bool
-		pan, val, _ = vf.Protect(func() { back, ok = box.OpenAnonymous(mkOut(mode, n), want, &R.pk, &R.sk) })
+		pan, val, _ = vf.Protect(func() { back, ok = box.OpenAnonymous(mkOut(mode, n), bc, &rpk, &rsk) })
 		c.Eval(1)
+		if !bytes.Equal(bc, want) || rpk != R.pk || rsk != R.sk {
+			c.Violation("box.OpenAnonymous modifies its box or key arguments", det)
+		}
+		wipe(bc)
+		wipe(rpk[:])
+		wipe(rsk[:])
 		if pan || !ok || !checkAppended(back, mode, msg) {
 			det["ok"] = ok
 			c.Violation("box.OpenAnonymous rejects or mis-decrypts a crypto_box_seal box", det)
@@ -495,13 +802,15 @@ func run(c *vf.Ctx) {
 		msg := pickMsg(si+2, n)
 		want := naclref.Sign(kp.seed, msg)
 		det := map[string]any{"seedclass": si, "len": n}
-		mode := (si + n) % 3
+		mode := (si + n) % nModes
+		det["outmode"] = mode
 		var got, back []byte
 		var ok bool
 		sk, pk := kp.sk, kp.pk
+		mc, sc := append([]byte(nil), msg...), append([]byte(nil), want...)
 		pan, val, _ := vf.Protect(func() {
-			got = sign.Sign(mkOut(mode, len(want)), msg, &sk)
-			back, ok = sign.Open(mkOut(mode, n), want, &pk)
+			got = sign.Sign(mkOut(mode, len(want)), mc, &sk)
+			back, ok = sign.Open(mkOut(mode, n), sc, &pk)
 		})
 		c.Eval(2)
 		if pan {
@@ -509,6 +818,11 @@ func run(c *vf.Ctx) {
 			c.Violation("sign.Sign/Open panics", det)
 			return
 		}
+		if !bytes.Equal(mc, msg) || !bytes.Equal(sc, want) || pk != kp.pk {
+			c.Violation("sign.Sign/Open modifies its message, signed message or public key argument", det)
+		}
+		wipe(mc) // the results were appended to out: they must not alias the inputs
+		wipe(sc)
 		if !checkAppended(got, mode, want) {
 			det["first_diff_at"] = firstDiff(got, want, mode)
 			c.Violation("sign.Sign != crypto_sign (Ed25519 signature || message)", det)
@@ -533,6 +847,7 @@ func run(c *vf.Ctx) {
 					c.Violation("sign.Open accepts a corrupted signed message (or panics)", det)
 				}
 			}
+			pk = kp.pk
 			other := sp2[(si+1)%len(sp2)].pk
 			var ok bool
 			vf.Protect(func() { _, ok = sign.Open(nil, want, &other) })
@@ -565,13 +880,24 @@ func run(c *vf.Ctx) {
 		msg := pickMsg(ki, n)
 		want := naclref.Auth(msg, key)
 		det := map[string]any{"keyclass": ki, "len": n}
-		var got *[32]byte
+		var got, got2 *[32]byte
 		var ok bool
+		kc, k2 := key, a32(akeys[(ki+1)%len(akeys)])
+		mc, dc := append([]byte(nil), msg...), want
 		pan, val, _ := vf.Protect(func() {
-			got = auth.Sum(msg, &key)
-			ok = auth.Verify(want[:], msg, &key)
+			got = auth.Sum(mc, &kc)
+			got2 = auth.Sum(mc, &k2) // the first authenticator belongs to the caller: a later Sum must not change it
+			ok = auth.Verify(dc[:], mc, &kc)
 		})
-		c.Eval(2)
+		c.Eval(3)
+		if !pan && (got == got2 || kc != key || dc != want || !bytes.Equal(mc, msg)) {
+			c.Violation("auth.Sum/Verify modifies an argument or returns shared storage", det)
+		}
+		if !pan && *got2 != naclref.Auth(msg, k2) {
+			c.Violation("auth.Sum != crypto_auth (HMAC-SHA-512 truncated to 32 bytes)", det)
+		}
+		wipe(mc)
+		wipe(kc[:])
 		if pan {
 			det["panic"] = fmt.Sprint(val)
 			c.Violation("auth.Sum/Verify panics", det)
